@@ -27,7 +27,7 @@ PSlots  == {"PA", "PS"}
 OSlots  == {"A", "S"}
 Slots   == PSlots \cup OSlots
 HStates == {"absent", "live", "destroyed"}
-Matrices == {1, 2}
+Matrices == {1, 2}      \* 1: rows sorted by column, 2: rows listed in shuffled column order (same operator)
 ParamSets == {1, 2}
 Bases == {0, 1}
 
